@@ -170,7 +170,8 @@ func (r *replication) replicate(c *conn, req *appendReq) error {
 		)
 		go func() {
 			defer func() {
-				close(resultCh)
+				// report a panic first: sending after the close would panic again
+				defer close(resultCh)
 				if v := recover(); v != nil {
 					select {
 					case <-stopCh:
